@@ -663,6 +663,23 @@ func freshResolved(r *engine.Run, rule string) {
 						escapes = r.P.Pos(r2.Pos())
 					}
 				}
+			case *ssa.BinOp, *ssa.DebugRef, *ssa.TypeAssert:
+				// compared or inspected, not kept
+			case *ssa.Call:
+				// a method called on the node (node.Hash()) reads it; the node handed to
+				// anything else as an argument may be kept there
+				if x.Call.IsInvoke() && x.Call.Value == node {
+					argToo := false
+					for _, a := range x.Call.Args {
+						if a == node {
+							argToo = true
+						}
+					}
+					if !argToo {
+						continue
+					}
+				}
+				escapes = r.P.Pos(ref.Pos())
 			default:
 				escapes = r.P.Pos(ref.Pos())
 			}
